@@ -190,12 +190,28 @@ func checkC10(c *Ctx) {
 				if !ok || !maps[info.Uses[mid]] {
 					continue
 				}
-				okName := ""
+				okName, vName := "", ""
 				if id, ok := as.Lhs[1].(*ast.Ident); ok {
 					okName = id.Name
 				}
+				if id, ok := as.Lhs[0].(*ast.Ident); ok {
+					vName = id.Name
+				}
 				cond := canon(info, ifs.Cond)
 				if okName != "" && strings.Contains(cond, okName) {
+					// a present entry may only enable the emission together with its value ("ok && v"):
+					// a bare positive `ok` would let explicitly omitted / forbidden columns (value false) through
+					isBoolMap := false
+					if mt, ok := info.Types[ix.X]; ok {
+						if m, ok := mt.Type.Underlying().(*types.Map); ok {
+							if b, ok := m.Elem().Underlying().(*types.Basic); ok && b.Kind() == types.Bool {
+								isBoolMap = true
+							}
+						}
+					}
+					if isBoolMap && vName != "" && vName != "_" && bareOK(ifs.Cond, okName, vName) {
+						return false
+					}
 					return true
 				}
 			}
@@ -561,15 +577,6 @@ func fromAccumulator(info *types.Info, parents map[ast.Node]ast.Node, n ast.Node
 				}
 			}
 		}
-		if ifs, ok := cur.(*ast.IfStmt); ok {
-			if as, ok := ifs.Init.(*ast.AssignStmt); ok && len(as.Rhs) == 1 {
-				if ix, ok := unparen(as.Rhs[0]).(*ast.IndexExpr); ok {
-					if id, ok := unparen(ix.X).(*ast.Ident); ok && accum[info.Uses[id]] && ifs.Body.Pos() <= n.Pos() && n.End() <= ifs.Body.End() {
-						return true
-					}
-				}
-			}
-		}
 	}
 	// append(dst, g(A)...) / append(dst, A...)
 	if as, ok := n.(*ast.AssignStmt); ok {
@@ -591,4 +598,48 @@ func fromAccumulator(info *types.Info, parents map[ast.Node]ast.Node, n ast.Node
 		}
 	}
 	return false
+}
+
+// bareOK reports whether identifier okName occurs positively in cond without being conjoined with vName.
+func bareOK(cond ast.Expr, okName, vName string) bool {
+	bare := false
+	var walk func(e ast.Expr, neg bool, conj []ast.Expr)
+	walk = func(e ast.Expr, neg bool, conj []ast.Expr) {
+		e = unparen(e)
+		switch x := e.(type) {
+		case *ast.UnaryExpr:
+			if x.Op == token.NOT {
+				walk(x.X, !neg, nil)
+				return
+			}
+		case *ast.BinaryExpr:
+			if x.Op == token.LAND && !neg {
+				walk(x.X, neg, append(append([]ast.Expr{}, conj...), x.Y))
+				walk(x.Y, neg, append(append([]ast.Expr{}, conj...), x.X))
+				return
+			}
+			if x.Op == token.LOR || x.Op == token.LAND {
+				walk(x.X, neg, nil)
+				walk(x.Y, neg, nil)
+				return
+			}
+		case *ast.Ident:
+			if x.Name == okName && !neg {
+				withV := false
+				for _, c := range conj {
+					ast.Inspect(c, func(n ast.Node) bool {
+						if id, ok := n.(*ast.Ident); ok && id.Name == vName {
+							withV = true
+						}
+						return true
+					})
+				}
+				if !withV {
+					bare = true
+				}
+			}
+		}
+	}
+	walk(cond, false, nil)
+	return bare
 }
